@@ -204,7 +204,7 @@ def clientOnKexInit (cr : Crypto) (cfg : Cfg) (st : CState) (m body : Bytes) : C
   match st.phase with
   | .kexinit =>
     match parseKexInit body with
-    | none => st.fail .proto
+    | none => st.fail .internal     -- PacketDecodeError inside the asynchronous handler reaches `internal_error()`
     | some peer =>
       let strict := peerStrict true peer
       if strict && st.seq != 0 then st.fail .proto
@@ -218,7 +218,6 @@ def clientOnKexInit (cr : Crypto) (cfg : Cfg) (st : CState) (m body : Bytes) : C
             clientStartKex cr { st with is := m, strict := strict, negInfo := some (n, info),
                                         ignoreFirst := ignoreFirstKex peer n.kex } n info
   | .accepted => ({ st with phase := .outOfScope }, [])
-  | .done => ({ st with phase := .outOfScope }, [])
   | _ => st.fail .proto                 -- 'Key exchange already in progress'
 
 /-- the end of `_process_reply` / `_process_done`: trust decision, shared secret, hash, signature, NEWKEYS -/
@@ -361,6 +360,7 @@ def clientStep (cr : Crypto) (cfg : Cfg) (st : CState) (m : Bytes) : COut :=
   match st.phase with
   | .failed _ => (st, [])
   | .outOfScope => (st, [])
+  | .done => (st, [])               -- everything after the peer's NEWKEYS is read under the new keys (C01)
   | .version => clientOnLine cfg st m
   | _ =>
     match m with
@@ -448,7 +448,7 @@ def serverOnKexInit (cr : Crypto) (cfg : Cfg) (st : SState) (m body : Bytes) : S
   match st.phase with
   | .kexinit =>
     match parseKexInit body with
-    | none => st.fail .proto
+    | none => st.fail .internal
     | some peer =>
       let strict := peerStrict false peer
       if strict && st.seq != 0 then st.fail .proto
@@ -463,7 +463,6 @@ def serverOnKexInit (cr : Crypto) (cfg : Cfg) (st : SState) (m body : Bytes) : S
             serverStartKex cr { st with ic := m, strict := strict, negInfo := some (n, info), hostAlg := hostAlg,
                                         ignoreFirst := ignoreFirstKex peer n.kex } info
   | .sentNewkeys => ({ st with phase := .outOfScope }, [])
-  | .done => ({ st with phase := .outOfScope }, [])
   | _ => st.fail .proto
 
 /-- `_perform_reply` / the end of `_process_secret`: hash, sign, reply, NEWKEYS -/
@@ -586,6 +585,7 @@ def serverStep (cr : Crypto) (cfg : Cfg) (st : SState) (m : Bytes) : SOut :=
   match st.phase with
   | .failed _ => (st, [])
   | .outOfScope => (st, [])
+  | .done => (st, [])
   | .version => serverOnLine cfg st m
   | _ =>
     match m with
